@@ -110,6 +110,8 @@ def check(ctx):
                 ctx.fail('serial-differs-from-parallel', 'in-process run saw %s, parallel run saw %s' % (d['s'][1], d['p'][1]),
                          dict(cfg=c['cfg'], n=c['n'], table=c['table'], tail=c.get('tail'), schedule=c.get('schedule'),
                               fkind=c['fkind'], demand=c['demand'], label=c['label'], kwargs={}))
+    from harness.props import multistream
+    multistream.run(ctx, ctx.scale(40, 400), {'outputs'}, 'multi-C03', failures=True)
 
 
 def replay(ctx, data):
